@@ -331,3 +331,20 @@ def check_wrapper_dispatch(repo, f, R, rule="DISPATCH", must_forward=()):
         R.check(not extra, rule, f.site, f"unknown keywords at {ast.unparse(call.func)} (site {kwsets.index((meth, call, kws))})",
                 f"keywords {sorted(extra)} are not kernel parameters", where=f.where(call), expected=sorted(kw_params), found=sorted(kws))
     return len(sites)
+
+
+def check_wrapper_inputs(repo, f, R, rule="INPUTS"):
+    """A public wrapper hands its own parameters to the assembly: no path replaces one of them by another value (a filtered,
+    re-ordered, scaled or defaulted copy).  Value-preserving rebinding (np.asarray, x if c else x) is accepted."""
+    from .formula import rebound_inputs, classify_rebinding, strip_restrict
+    names = set(f.params)
+    rebound, syms = rebound_inputs(f, names, rule=rule)
+    for name, val, st in rebound:
+        core, conds = strip_restrict(val) if hasattr(val, "atoms") else (val, [])
+        kind = "different" if conds else classify_rebinding(core, syms[name])
+        if kind == "unknown":
+            raise AnalysisError(rule, f"`{ast.unparse(st)[:80]}` rebinds the input `{name}` to a value that is not modelled", f.where(st))
+        R.check(kind == "same", rule, f.site, "input " + ast.unparse(st)[:70],
+                f"`{name}` is replaced on some path of {f.name} before it is used: the result would be that of other inputs",
+                where=f.where(st), expected=f"{name} used as given", found=str(val)[:80])
+    R.ok(rule, f.site, f"{f.name}: parameters {sorted(names)} are used as given ({len(rebound)} value-preserving rebinding(s))")
